@@ -12,7 +12,9 @@ import os
 UINTS = [0, 1, 23, 24, 255, 256, 65535, 65536, 2 ** 32 - 1, 2 ** 32, 2 ** 64 - 1, 2 ** 64, 2 ** 70 + 5]
 NEGS = [-1, -24, -25, -256, -257, -65536, -65537, -(2 ** 32), -(2 ** 32) - 1, -(2 ** 64), -(2 ** 64) - 1]
 LENS = [0, 1, 2, 22, 23, 24, 25, 255, 256, 300]
-TEXTS = ["", "a", "nRF54H20_cpuapp", "https://example.com/file.bin", "#radio", "é", "ünï€", "x" * 23, "y" * 24, "z" * 256]
+TEXTS = ["", "a", "nRF54H20_cpuapp", "https://example.com/file.bin", "#radio", "é", "ünï€", "x" * 23, "y" * 24, "z" * 256,
+         # texts whose ends are white space or line ends: the encoded string is the described one, character for character
+         "line\n", "two\nlines\n\n", " lead", "trail ", "\ttab", "crlf\r\n", "\n"]
 ALGS = ["cose-alg-sha-256", "cose-alg-shake128", "cose-alg-sha-384", "cose-alg-sha-512", "cose-alg-shake256"]
 
 
